@@ -99,9 +99,8 @@ type probe struct {
 	SE   [][]int64 `json:"se"` // [v, k] in index order
 	SR   [][]int64 `json:"sr"`
 	SD   int       `json:"sd"`
-	LG   [][]int64 `json:"lg"` // Get(nil, v): [v, keys sorted...]
-	SG   [][]int64 `json:"sg"`
 	Txs  []txProbe `json:"txs"`
+	Inv  [2]bool   `json:"inv"` // Get(nil, v) of the lookup / sorted index answers ErrIndexInvalid
 }
 
 type out struct {
@@ -198,9 +197,62 @@ func (f *faultTx) Commit(ctx context.Context, opts ...any) error {
 	return f.Tx.Commit(ctx, opts...)
 }
 
+// flakyIter yields the first good positions of the wrapped iterator and then reports a storage
+// error the way pebble does: the iterator turns invalid and the error is surfaced by Error() and
+// returned from Close().
+var errScan = errors.New("c17: injected read error in the middle of the scan")
+
+type flakyIter struct {
+	kv.Iterator
+	good   int
+	seen   int
+	failed bool
+}
+
+func (i *flakyIter) step(ok bool) bool {
+	if !ok {
+		return false
+	}
+	i.seen++
+	if i.seen > i.good {
+		i.failed = true
+		return false
+	}
+	return true
+}
+func (i *flakyIter) First() bool { i.seen = 0; i.failed = false; return i.step(i.Iterator.First()) }
+func (i *flakyIter) Next() bool  { return i.step(i.Iterator.Next()) }
+func (i *flakyIter) Valid() bool { return !i.failed && i.Iterator.Valid() }
+func (i *flakyIter) Error() error {
+	if i.failed {
+		return errScan
+	}
+	return i.Iterator.Error()
+}
+func (i *flakyIter) Close() error {
+	cErr := i.Iterator.Close()
+	if i.failed {
+		return errScan
+	}
+	return cErr
+}
+
 type faultDB struct {
 	kv.DB
 	last *faultTx
+	// scanFault >= 0: the next iterator opened directly on the DB (the bulk populate of the next
+	// OpenTable) dies after scanFault rows; consumed by that iterator.
+	scanFault int
+}
+
+func (f *faultDB) OpenIterator(opts kv.IteratorOptions) (kv.Iterator, error) {
+	base, err := f.DB.OpenIterator(opts)
+	if err != nil || f.scanFault < 0 {
+		return base, err
+	}
+	it := &flakyIter{Iterator: base, good: f.scanFault}
+	f.scanFault = -1
+	return it, nil
 }
 
 func (f *faultDB) OpenTx() kv.Tx {
@@ -235,9 +287,11 @@ func (w *world) open() {
 	if err != nil {
 		panic(err)
 	}
-	if err := t.WaitForIndexes(w.ctx); err != nil {
+	// a populate that hit the injected read error reports it; queries must stay correct
+	if err := t.WaitForIndexes(w.ctx); err != nil && !errors.Is(err, errScan) {
 		panic(err)
 	}
+	w.fdb.scanFault = -1
 	w.table = t
 }
 
@@ -337,6 +391,10 @@ func keysRow(v int64, ks []uint32) []int64 {
 func (w *world) getsFor(tx gorp.Tx) (lg, sg [][]int64) {
 	for _, v := range w.avals {
 		ks, err := w.li.Get(tx, int32(v))
+		if errors.Is(err, gorp.ErrIndexInvalid) {
+			lg = nil
+			break
+		}
 		if err != nil {
 			panic(err)
 		}
@@ -344,6 +402,10 @@ func (w *world) getsFor(tx gorp.Tx) (lg, sg [][]int64) {
 	}
 	for _, v := range w.bvals {
 		ks, err := w.si.Get(tx, v)
+		if errors.Is(err, gorp.ErrIndexInvalid) {
+			sg = nil
+			break
+		}
 		if err != nil {
 			panic(err)
 		}
@@ -383,20 +445,16 @@ func (w *world) probe() probe {
 	}
 	sort.Slice(p.SR, func(i, j int) bool { return p.SR[i][0] < p.SR[j][0] })
 	p.SD = sd
-	// nil tx: committed state only (public API)
-	for _, v := range w.avals {
-		ks, err := w.li.Get(nil, int32(v))
-		if err != nil {
-			panic(err)
-		}
-		p.LG = append(p.LG, keysRow(v, ks))
+	// nil tx: committed state only (public API); an index whose populate failed says so
+	if _, err := w.li.Get(nil, int32(0)); errors.Is(err, gorp.ErrIndexInvalid) {
+		p.Inv[0] = true
+	} else if err != nil {
+		panic(err)
 	}
-	for _, v := range w.bvals {
-		ks, err := w.si.Get(nil, v)
-		if err != nil {
-			panic(err)
-		}
-		p.SG = append(p.SG, keysRow(v, ks))
+	if _, err := w.si.Get(nil, int64(0)); errors.Is(err, gorp.ErrIndexInvalid) {
+		p.Inv[1] = true
+	} else if err != nil {
+		panic(err)
 	}
 	ids := make([]int, 0, len(w.txs))
 	for t := range w.txs {
@@ -584,6 +642,14 @@ func (w *world) step(o op) (res out) {
 			panic(err)
 		}
 		w.open()
+	case "reopen_fault":
+		// close + OpenTable whose populate scan dies after o.Lim rows
+		w.abortAll()
+		if err := w.table.Close(); err != nil {
+			panic(err)
+		}
+		w.fdb.scanFault = o.Lim
+		w.open()
 	case "repl":
 		gtx := w.db.OpenTx()
 		wr := gorp.WrapWriter[uint32, Row](gtx)
@@ -646,7 +712,7 @@ func runCase(c tcase) (res result) {
 	}()
 	w := &world{ctx: context.Background(), mode: c.Mode, txs: map[int]gorp.Tx{}, ftx: map[int]*faultTx{},
 		avals: c.AVals, bvals: c.BVals}
-	w.fdb = &faultDB{DB: memkv.New()}
+	w.fdb = &faultDB{DB: memkv.New(), scanFault: -1}
 	w.kvdb = w.fdb
 	if c.Mode == 0 {
 		w.obs = observe.New[kv.TxReader]()
